@@ -52,7 +52,10 @@ class Duplicates(ManifestHarness):
         names = [['a', 'b'][I.choose('out%d' % k, 2)] for k in range(n)]
         spell = [I.choose('sp%d' % k, self.nspell) for k in range(n)]
         nexp = 1 + I.choose('nexplicit', n)               # 1..n explicit, rest implicit
-        second = I.choose('second', 4)                    # 0 none | 1 other file | 2 same file 'a' | 3 same file, other spelling
+        # 0 none | 1 other file | 2 same file as explicit output | 3 same file, other spelling, second position
+        # 4 same file as IMPLICIT output | 5 implicit, other spelling | 6 the first statement's LAST output (implicit there when nexp < n) as implicit output
+        second = I.choose('second', 7)
+        shared = names[-1] if second == 6 else names[0]
         t = Text().add('rule r\n  command = c\n').add('build')
         for k in range(n):
             if k == nexp:
@@ -65,6 +68,12 @@ class Duplicates(ManifestHarness):
             t.add('build ').add(names[0]).add(': r j\n')
         elif second == 3:
             t.add('build w ./').add(names[0]).add(': r j\n')
+        elif second == 4:
+            t.add('build w | ').add(names[0]).add(': r j\n')
+        elif second == 5:
+            t.add('build w | ./').add(names[0]).add(': r j\n')
+        elif second == 6:
+            t.add('build w | ').add(names[-1]).add(': r j\n')
         first = []
         for k, nm in enumerate(names):
             if nm not in [x for x, _ in first]:
@@ -75,11 +84,11 @@ class Duplicates(ManifestHarness):
 
         def expect(I, r):
             ex = self.extra()
-            if second in (2, 3):
+            if second >= 2:
                 if r.variant == 'Ok':
-                    I.fail('second-producer-accepted', 'two build statements produce %r and the manifest is accepted' % names[0], extra=ex)
+                    I.fail('second-producer-accepted', 'two build statements produce %r and the manifest is accepted' % shared, extra=ex)
                 msg = ML.LL.msg_bytes(r.fields[0])
-                if not (_re.search(rb'build\.ninja:4', msg) and _re.search(rb'build\.ninja:3', msg) and names[0].encode() in msg and b'already an output' in msg):
+                if not (_re.search(rb'build\.ninja:4', msg) and _re.search(rb'build\.ninja:3', msg) and shared.encode() in msg and b'already an output' in msg):
                     I.fail('second-producer-message', 'the error does not cite the file and both statements: %r' % msg[:160], extra=ex)
                 return 'rejected'
             if r.variant != 'Ok':
